@@ -3,9 +3,8 @@ import dis
 import gc
 import sys
 from types import FrameType
-from typing import List, Tuple, Type, cast
+from typing import Dict, List, Optional, Tuple, Type, cast
 from ._lowlevel import FrameDetails
-
 
 wordsize = ctypes.sizeof(ctypes.c_size_t)
 
@@ -47,9 +46,56 @@ class FrameObjectStart(ctypes.Structure):
         _fields_.insert(0, ("ob_debug", ctypes.c_byte * extra_header_bytes))
 
 
+def _is_on_this_thread(frame: FrameType) -> bool:
+    this_frame: Optional[FrameType] = sys._getframe(1)
+    while this_frame is not None:
+        if this_frame is frame:
+            return True
+        this_frame = this_frame.f_back
+    return False
+
+
 def inspect_frame(frame: FrameType) -> FrameDetails:
     assert sys.implementation.name == "cpython" and sys.version_info < (3, 11)
 
+    details, is_resolved = _inspect_frame(frame)
+    if is_resolved:
+        return details
+
+    # The frame is executing, or blocked, on some other thread (or in a
+    # suspended greenlet), and details.stack holds addresses, not objects. If
+    # that thread runs while we're looking, those addresses can be freed, or
+    # freed and reused for something else, before we get around to taking
+    # references to them -- and an executing frame doesn't record how much
+    # of its stack is in use, so there's no way to read a slot and take the
+    # reference in one step like the 3.11+ implementation does. So we never
+    # turn such an address into a reference. Instead we ask the garbage
+    # collector for (new references to) the objects that live at those
+    # addresses right now, then look at the frame twice more. If both looks
+    # agree, every slot below the innermost active block held the same
+    # address the whole time in between, and that address can't have been
+    # recycled because we are keeping its occupant alive. Objects that the
+    # garbage collector doesn't track come out as None (same as for a
+    # suspended frame).
+    for _ in range(10):
+        addresses = set(details.stack)
+        alive: Dict[int, object] = {}
+        if addresses:
+            alive = {id(obj): obj for obj in gc.get_objects() if id(obj) in addresses}
+        first, _ = _inspect_frame(frame)
+        details, is_resolved = _inspect_frame(frame)
+        if is_resolved:
+            # It got suspended, or handed to this thread, in the meantime
+            return details
+        if first == details and addresses.issuperset(details.stack):
+            details.stack = [alive.get(cast(int, addr)) for addr in details.stack]
+            return details
+    raise RuntimeError(
+        "couldn't get a consistent view of a frame that is running on another thread"
+    )
+
+
+def _inspect_frame(frame: FrameType) -> Tuple[FrameDetails, bool]:
     details = FrameDetails()
 
     # Basic sanity checks cross-referencing the values we can get from Python
@@ -86,13 +132,17 @@ def inspect_frame(frame: FrameType) -> FrameDetails:
     # Figure out what portion of the stack is actually valid, and extract
     # the PyObject pointers. We just store their addresses (id), not taking
     # references or anything.
-    if frame_raw.f_stacktop == 0:
+    # (Read this only once: a frame that is running on another thread
+    # can get suspended, or resumed, while we're looking at it.)
+    stacktop = frame_raw.f_stacktop
+    lasti = frame.f_lasti
+    if stacktop == 0:
         # Frames that are currently executing have a NULL stacktop (a
         # -1 stackdepth on 3.9+).  Copy the whole stack; we'll trim it
         # below based on which blocks are active.
         stack_top_offset = end_offset
     else:
-        stack_top_offset = frame_raw.f_stacktop - id(frame)
+        stack_top_offset = stacktop - id(frame)
         assert stack_start_offset <= stack_top_offset <= end_offset
     stack = [
         ctypes.c_size_t.from_address(id(frame) + offset).value
@@ -167,12 +217,17 @@ def inspect_frame(frame: FrameType) -> FrameDetails:
     # way is to use gc.get_referents(). For an executing frame, though,
     # get_referents() doesn't walk the value stack, so we have to make our
     # references the hard way.
-    if frame_raw.f_stacktop == 0:
+    if stacktop == 0:
         if details.blocks:
             stack_validity_limit = max(blk.level for blk in details.blocks)
         else:
             stack_validity_limit = 0
         del stack[stack_validity_limit:]
+        if not _is_on_this_thread(frame):
+            details.stack = list(stack)
+            return details, False
+        # Nothing can change under us: the frame is waiting for (a callee of
+        # a callee of...) this very function to return
         details.stack = [
             None if address == 0 else ctypes.cast(address, ctypes.py_object).value
             for address in stack
@@ -180,5 +235,7 @@ def inspect_frame(frame: FrameType) -> FrameDetails:
     else:
         object_from_id_map = {id(obj): obj for obj in gc.get_referents(frame)}
         details.stack = [object_from_id_map.get(value) for value in stack]
+        # Make sure no other thread has resumed it since we read its stack
+        assert frame_raw.f_stacktop == stacktop and frame.f_lasti == lasti
 
-    return details
+    return details, True
